@@ -16,6 +16,8 @@ STAGE3 = ['crop', 'croprect', 'croprect', 'resize1', 'resize1', 'sel']
 STAGE4 = ['addmask', 'addmask', 'inverse', 'enumsel', 'clrsel', 'clrsel', 'erase', 'erase', 'sel', 'sel', 'sel', 'centerline', 'jlineleft', 'jlineright',
           'eraserow', 'eraserow_s', 'eraserow_e', 'erasecol', 'erasecol_s', 'erasecol_e']
 
+STAGE5 = ['rotate', 'rotate', 'delrow', 'delrow', 'insrow', 'insrow', 'delcol', 'delcol', 'inscol', 'inscol', 'scrup', 'scrup', 'scrdown', 'scrdown', 'caret', 'caret', 'desel']
+
 PALS = [[0x000000, 0xAA0000, 0x00AA00, 0x0000AA], [0x101010 * k for k in range(16)], [0x000000, 0xFFFFFF], [],
         [0, 170, 43520, 43690, 11141120, 11141290, 11162880, 11184810, 5592405, 5592575, 5635925, 5636095, 16733525, 16733695, 16777045, 16777215, 0x123456, 0x00AA00]]
 
@@ -96,6 +98,7 @@ X_NAME = {'xresize': 'XResize', 'pal': 'XPal', 'sauce': 'XSauce', 'fontpage': 'X
           'addmask': 'XAddMask', 'inverse': 'XInverseSel', 'enumsel': 'XEnumSel', 'clrsel': 'XClrSel', 'erase': 'XErase',
           'centerline': 'XCenterLine', 'jlineleft': 'XJLineLeft', 'jlineright': 'XJLineRight', 'eraserow': 'XEraseRow', 'eraserow_s': 'XEraseRowS',
           'eraserow_e': 'XEraseRowE', 'erasecol': 'XEraseCol', 'erasecol_s': 'XEraseColS', 'erasecol_e': 'XEraseColE',
+          'rotate': 'XRotateL', 'delrow': 'XDelRow', 'insrow': 'XInsRow', 'delcol': 'XDelCol', 'inscol': 'XInsCol', 'scrup': 'XScrUp', 'scrdown': 'XScrDown',
           'U': 'XSU', 'R': 'XSR'}
 H_NAME = {'xresize': 'resize 0', 'resize1': 'resize 1'}
 
@@ -148,9 +151,9 @@ def split_xblocks(v):
 
 def probe(ctx):
     r = ctx.impl(['c08probe'], per_case_timeout=60)[0]
-    if r[0] != 'ok' or len(r[1]) != 16 + 64 + 2 + 5: raise RuntimeError('c08probe failed: %r' % (r,))
+    if r[0] != 'ok' or len(r[1]) != 16 + 64 + 2 + 5 + 256: raise RuntimeError('c08probe failed: %r' % (r,))
     v = r[1]
-    return v[:16], v[16:80], v[80:82], v[82:87]
+    return v[:16], v[16:80], v[80:82], v[82:87], v[87:]
 
 
 FLIP_FONTS = [0, 1, 2, 3, 5, 6, 7, 42, 100, 101]      # every font a case can put into the font table (ANSI pages; 100 + i = SAUCE font i)
@@ -166,11 +169,11 @@ def probe_flips(ctx):
 
 
 def x_imports(flips, pr):
-    dos, ansi, sf, sr = pr
+    dos, ansi, sf, sr, rot = pr
     L = lambda l: '[%s]' % '; '.join(map(str, l))
     fl = '[%s]' % '; '.join('(%d, %s, %s)' % (i, L(fx), L(fy)) for i, fx, fy in flips)
     return ('From IE Require Import Run.RunC08 Run.RunC08X.\nLocal Open Scope Z_scope.\n'
-            'Definition ENV : xenv := (%s, %s, %s, %s, %s).' % (fl, L(dos), L(ansi), L(sf), L(sr)))
+            'Definition ENV : xenv := (%s, %s, %s, %s, %s, %s).' % (fl, L(dos), L(ansi), L(sf), L(sr), L(rot)))
 
 
 def enc(ch, fg, bg, fp, attr):
@@ -198,6 +201,21 @@ X_DIRECTED = [
     ((base_doc(6, 4, [(6, 4, 0, 0, 1, 0, [[A, Bc, Sp, enc(176, 3, 10, 0, 0), enc(220, 1, 9, 0, 0)]])]), 0, 1, 0, 0, [], 0),
      [('ice', [1]), ('ice', [2]), ('palmode', [2]), ('palmode', [0]), ('palmode', [3]), ('palmode', [1]), ('U', []), ('U', []), ('U', []), ('U', []), ('U', []), ('U', []),
       ('R', []), ('R', []), ('R', []), ('R', []), ('R', []), ('R', [])]),
+    # a scroll over part of the layer width is outside the model (skipped), the whole width is not
+    ((base_doc(6, 4, [(6, 4, 0, 0, 1, 0, [[A, A, A, A], [Bc]])]), 0, 1, 0, 0, [], 0),
+     [('sel', [1, 0, 3, 2, 0]), ('scrup', []), ('desel', []), ('scrup', []), ('scrdown', []), ('scrdown', []), ('U', []), ('U', []), ('U', []), ('R', []), ('R', [])]),
+    # paste, anchor, merge, stamp, crop, resize with layers
+    ((base_doc(6, 4, [(6, 4, 0, 0, 1, 0, [[A, Bc, A], [Bc]])]), 0, 1, 0, 1, [], 0),
+     [('pastex', [1, 1, 2, 1, A, Bc]), ('cur', [1]), ('stampdown', []), ('anchor', []), ('pastex', [4, 2, 3, 2, A, A, A, Bc, Bc, Bc]), ('merge', [1]),
+      ('croprect', [1, 0, 4, 3]), ('resize1', [3, 2]), ('U', []), ('U', []), ('U', []), ('U', []), ('U', []), ('U', []), ('R', []), ('R', []), ('R', []), ('R', []), ('R', []), ('R', [])]),
+    # selection mask: add, inverse, enumerate, erase through the mask, the wrappers
+    ((base_doc(6, 4, [(6, 4, 0, 0, 1, 0, [[A, Bc, A, A, A, A], [Bc, A, A], [A], [A, A]])], 0, 0, 2, 1), 0, 1, 0, 0, [], 0),
+     [('sel', [1, 0, 3, 2, 0]), ('addmask', []), ('sel', [2, 1, 5, 3, 2]), ('addmask', []), ('inverse', []), ('enumsel', [66]), ('erase', []),
+      ('sel', [0, 0, 2, 2, 0]), ('addmask', []), ('eraserow', []), ('erasecol_e', []), ('U', []), ('U', []), ('U', []), ('U', []), ('U', []), ('U', []), ('U', []), ('U', []), ('U', []),
+      ('R', []), ('R', []), ('R', []), ('R', []), ('R', []), ('R', []), ('R', []), ('R', []), ('R', [])]),
+    # rotate, rows and columns
+    ((base_doc(6, 4, [(5, 3, 0, 0, 1, 0, [[A, enc(220, 7, 0, 0, 0), enc(179, 7, 0, 0, 0)], [Bc]])], 0, 0, 1, 1), 0, 1, 0, 0, [], 0),
+     [('rotate', []), ('delrow', []), ('insrow', []), ('delcol', []), ('inscol', []), ('U', []), ('U', []), ('U', []), ('U', []), ('U', []), ('R', []), ('R', []), ('R', []), ('R', []), ('R', [])]),
     ((base_doc(6, 4, [(6, 4, 0, 0, 1, 0, [[A, Bc]]), (3, 2, 1, 1, 17, 0, [[enc(67, 2, 0, 1, 0)]])], 1), 0, 1, 3, 1, [(1, 5)], 1),
      [('replfont', [1, 2]), ('remfont', [1]), ('fontslot', [0, 0]), ('U', []), ('U', []), ('U', []), ('R', []), ('R', []), ('R', [])]),
 ]
@@ -209,10 +227,11 @@ def pools(stage):
     if stage >= 2: p += STAGE2 * 2
     if stage >= 3: p += STAGE3 * 2
     if stage >= 4: p += STAGE4
+    if stage >= 5: p += STAGE5 * 2
     return p
 
 
-def correspondence_x(ctx, B, n_random, stage=4):
+def correspondence_x(ctx, B, n_random, stage=5):
     rng = ctx.rng
     pr = probe(ctx)
     flips = probe_flips(ctx)
@@ -223,7 +242,7 @@ def correspondence_x(ctx, B, n_random, stage=4):
         n = rng.choice([3, 6, 10, 14])
         hist.append((xd, [x_op(rng, xd[0][0], xd[0][1], B, pool) for _ in range(n)]))
     dis = []; total = 0; nontriv = set(); opcount = {}; outcomes = {'all-ok': 0, 'err': 0, 'panic': 0}
-    model_errors = []
+    model_errors = []; skipped = [0]
     for rnd in range(3):
         if not hist: break
         cases = [xtrace_case(xd, ops, B) for xd, ops in hist]
@@ -235,11 +254,19 @@ def correspondence_x(ctx, B, n_random, stage=4):
         for (xd, ops), c, r, m in zip(hist, cases, impl, model):
             total += 1
             a = r[1] if (r is not None and r[0] == 'ok') else None
+            if a is not None and m is not None and m and m[-1] == 9 and a[:len(m) - 1] == m[:-1] and len(a) >= len(m):
+                # the model declares the next operation outside itself: drop that operation and go on
+                nbs, _ = split_xblocks(m[:-1])
+                if nbs is not None and nbs >= 1:
+                    skipped[0] += 1
+                    k = nbs - 1
+                    nxt.append((xd, ops[:k] + ops[k + 1:]))
+                    continue
             if a is None or m is None or a != m:
                 k = 0
                 if a is not None and m is not None:
                     while k < min(len(a), len(m)) and a[k] == m[k]: k += 1
-                dis.append({'case': c[:700], 'xhist': [xop_text(o, B) for o in ops], 'xdoc_s': xdoc_text(xd, B),
+                dis.append({'case': c[:700], 'hist': [xop_text(o, B) for o in ops if o[0] not in ('U', 'R')], 'doc_s': xdoc_text(xd, B),
                             'impl': (a[max(0, k - 6):k + 6] if a is not None else r), 'model': (m[max(0, k - 6):k + 6] if m is not None else None),
                             'first_difference_at': k})
                 continue
@@ -256,4 +283,4 @@ def correspondence_x(ctx, B, n_random, stage=4):
                 nxt.append((xd, ops[:k] + ops[k + 1:]))
         hist = nxt
     return {'cases': total, 'disagreements': dis, 'distinct_nontrivial': len(nontriv),
-            'distribution': {'steps_by_operation': opcount, 'outcomes': outcomes, 'model_errors': model_errors[:2]}}
+            'distribution': {'steps_by_operation': opcount, 'outcomes': outcomes, 'outside_model_skips': skipped[0], 'model_errors': model_errors[:2]}}
